@@ -3,7 +3,8 @@
 /repo's working tree on sys.path: calls the REAL Python API `values()` exactly as a user would.
 
 usage: py_values_driver.py <module dir> <jobs.json> <results.json>
-jobs: [{"file": path, "requests": [{"chrom", "start", "end", "bins", "summary", "exact", "missing", "oob"}, …]}, …]
+jobs: [{"file": path, "requests": [{"chrom", "start", "end", "bins", "summary", "exact", "missing", "oob", "arr"}, …]}, …]
+      ("arr": x = pass `arr=` an array of the right size pre-filled with x; the answer must not depend on it)
 results: per job a list of either {"v": [f64 hex…]} or {"exc": "<type>: <message>"}.
 """
 import json
@@ -32,6 +33,11 @@ def main():
             for k in ("missing", "oob"):
                 if rq.get(k) is not None:
                     kw[k] = float("nan") if rq[k] == "nan" else float(rq[k])
+            if rq.get("arr") is not None:
+                # a caller-supplied output buffer that already holds something (a reused array, np.empty)
+                import numpy
+                n = rq["bins"] if rq.get("bins") is not None else rq["end"] - rq["start"]
+                kw["arr"] = numpy.full(n, float(rq["arr"]), dtype="float64")
             try:
                 v = f.values(rq["chrom"], rq["start"], rq["end"], **kw)
                 res.append({"v": [struct.pack(">d", float(x)).hex() for x in v]})
